@@ -332,6 +332,7 @@ type LinCase struct {
 	Clients int     `json:"clients"`
 	History []LinOp `json:"history,omitempty"`
 	Big     []BigOp `json:"big,omitempty"` // large-store family
+	Panic   string  `json:"panic,omitempty"`  // a store operation of one of the clients panicked with this
 	Wedged  bool    `json:"wedged,omitempty"` // the clients never finished: every goroutine of the process is parked on a lock (the store's)
 }
 
@@ -425,12 +426,19 @@ func recordHistory(c *Cfg, idx int) *LinCase {
 	store := flyt.NewSharedStore()
 	var clock atomic.Int64
 	var ready atomic.Int32
+	var panicNote atomic.Value // what a store operation panicked with (first one)
 	var wg sync.WaitGroup
 	hist := make([][]LinOp, clients)
 	for cl := 0; cl < clients; cl++ {
 		wg.Add(1)
 		go func(cl int) {
 			defer wg.Done()
+			defer func() {
+				if p := recover(); p != nil {
+					panicNote.CompareAndSwap(nil, fmt.Sprint(p))
+					ready.Add(int32(clients)) // (let the others through the barrier)
+				}
+			}()
 			ready.Add(1)
 			for int(ready.Load()) < clients { // spin barrier
 				runtime.Gosched()
@@ -495,6 +503,10 @@ func recordHistory(c *Cfg, idx int) *LinCase {
 	lc := &LinCase{Family: "history", Clients: clients}
 	if waitClientsOrWedged(&wg) {
 		lc.Wedged = true
+		return lc
+	}
+	if pn, _ := panicNote.Load().(string); pn != "" {
+		lc.Panic = pn
 		return lc
 	}
 	for _, h := range hist {
@@ -574,6 +586,11 @@ func runC13(c *Cfg) {
 				r.Note("stopped shard after a wedged store (stuck goroutines left behind)")
 				return
 			}
+			if lc.Panic != "" {
+				r.Eval()
+				r.Violate("C13", "C13:store-operation-panicked:large-store", fmt.Sprintf("%d clients ran operations (Set, Delete, Merge, Clear, Len, Keys, GetAll, Has, Get) on a large store concurrently; one of the calls panicked: %s — on an ordinary map no order of these operations panics", lc.Clients, lc.Panic), lc)
+				continue
+			}
 			res, ov := checkBigHistory(lc, 20*time.Second)
 			r.Eval()
 			r.Count("large_store.histories", 1)
@@ -601,6 +618,11 @@ func runC13(c *Cfg) {
 			r.Violate("C13", "C13:store-wedged", fmt.Sprintf("%d clients ran store operations concurrently and never finished: every goroutine is parked on a lock and nothing can release it (a reader and a writer wait for each other inside the store) — operations that never complete cannot be put into any sequential order", lc.Clients), lc)
 			r.Note("stopped shard after a wedged store (stuck goroutines left behind)")
 			return
+		}
+		if lc.Panic != "" {
+			r.Eval()
+			r.Violate("C13", "C13:store-operation-panicked", fmt.Sprintf("%d clients ran store operations concurrently; one of the calls panicked: %s — on an ordinary map no order of these operations panics", lc.Clients, lc.Panic), lc)
+			continue
 		}
 		res, ov, shape := checkHistory(lc, 20*time.Second)
 		r.Eval()
@@ -961,12 +983,19 @@ func recordBigHistory(c *Cfg, idx int) *LinCase {
 	}
 	var clock atomic.Int64
 	var ready atomic.Int32
+	var panicNote atomic.Value // what a store operation panicked with (first one)
 	var wg sync.WaitGroup
 	hist := make([][]BigOp, clients)
 	for cl := 0; cl < clients; cl++ {
 		wg.Add(1)
 		go func(cl int) {
 			defer wg.Done()
+			defer func() {
+				if p := recover(); p != nil {
+					panicNote.CompareAndSwap(nil, fmt.Sprint(p))
+					ready.Add(int32(clients))
+				}
+			}()
 			ready.Add(1)
 			for int(ready.Load()) < clients {
 				runtime.Gosched()
@@ -982,6 +1011,10 @@ func recordBigHistory(c *Cfg, idx int) *LinCase {
 	lc := &LinCase{Family: "large-store", Clients: clients}
 	if waitClientsOrWedged(&wg) {
 		lc.Wedged = true
+		return lc
+	}
+	if pn, _ := panicNote.Load().(string); pn != "" {
+		lc.Panic = pn
 		return lc
 	}
 	if prefilled { // the pre-fill as an operation that completed before everything else
